@@ -363,6 +363,9 @@ package cbor
 //@   may_panic
 //@   returns (length, err)
 //@   requires len(input) >= 1
+//@   assert[decision-is-the-bytewise-comparison] before "if ordering == 0 {" :: ordering == bytesCompare(bytes(lastSeenKey), bytes(keyCborBytes))
+//@   assert[duplicate-refused-means-equal-keys] before "return 0, errors.New("CBOR map contains duplicate keys.")" :: bytes(lastSeenKey) == bytes(keyCborBytes)
+//@   assert[order-refused-means-previous-key-greater] before "return 0, errors.New("CBOR map keys are not in lexicographical order.")" :: bytesCompare(bytes(lastSeenKey), bytes(keyCborBytes)) > 0
 //@   ensures err == nil ==> 1 <= length && length <= len(input)
 //@   ensures[count-honoured] err == nil ==> (input[0] & 31) < 24 ==> length >= 1 + 2 * (input[0] & 31)
 //@   decreases 2 * len(input)
